@@ -1,6 +1,6 @@
 CONSTANTS
   Configs <- C17Configs
-  Cases <- AllCases
+  Cases <- SmallCases
   Faulty = FALSE
   MaxSegs = 3
 INIT GenInit
